@@ -11,6 +11,7 @@ mod hashsim;
 mod keys;
 mod ossim;
 mod prng;
+mod replsim;
 mod proc;
 mod run;
 mod universe;
@@ -45,6 +46,7 @@ fn main() {
                 "C05" | "C15" => driver::check_hashsim(p, tier),
                 "C13" | "C16" => driver::check_cellsim(p, tier),
                 "C18" | "C03" => driver::check_ossim(p, tier),
+                "C17" => driver::check_replsim(p, tier),
                 _ => usage(),
             }
         }
@@ -54,6 +56,7 @@ fn main() {
                 Some("hashsim") => hashsim::worker(&input),
                 Some("cellsim") => cellsim::worker(&input),
                 Some("ossim") => ossim::worker(&input),
+                Some("replsim") => replsim::worker(&input),
                 _ => usage(),
             };
             println!("{out}");
@@ -65,6 +68,7 @@ fn main() {
                 Some("hashsim") => hashsim::single(&input),
                 Some("cellsim") => cellsim::single(&input),
                 Some("ossim") => ossim::single(&input),
+                Some("replsim") => replsim::single(&input),
                 _ => usage(),
             };
             println!("{out}");
@@ -75,6 +79,7 @@ fn main() {
             let out = match args.get(2).map(|s| s.as_str()) {
                 Some("cellsim") => cellsim::minimise(&input),
                 Some("ossim") => ossim::minimise(&input),
+                Some("replsim") => replsim::minimise(&input),
                 _ => usage(),
             };
             println!("{out}");
